@@ -727,9 +727,14 @@ fn rebased_layer_cases(ctx: &mut Ctx) {
                 }
             }
             if map.is_empty() { continue; }
-            let desc = format!("bundled units + a layer that multiplies the ratio of every declared {q} unit by {factor}");
-            let layer = UnitsFile { default_system: None, si: None, fractions: None, extend: Some(Extend { precedence: Default::default(), units: map }), quantity: vec![] };
-            let built = guarded(|| Converter::builder().with_bundled_units().map_err(|e| e.to_string())?.with_units_file(layer).map_err(|e| e.to_string())?.finish().map_err(|e| e.to_string()));
+          // with and without a THIRD layer that addresses the same units under the same keys and only adds an alias to each
+          // (a later layer that does not mention the ratio must leave the earlier layer's ratio in place)
+          for third in [false, true] {
+            let desc = format!("bundled units + a layer that multiplies the ratio of every declared {q} unit by {factor}{}", if third { " + a layer that only adds an alias to each of these units" } else { "" });
+            let layer = UnitsFile { default_system: None, si: None, fractions: None, extend: Some(Extend { precedence: Default::default(), units: map.clone() }), quantity: vec![] };
+            let alias_layer = UnitsFile { default_system: None, si: None, fractions: None, quantity: vec![],
+                extend: Some(Extend { precedence: Default::default(), units: map.keys().map(|k| (k.clone(), ExtendUnitEntry { aliases: Some(vec![format!("{k}zz").into()]), ..Default::default() })).collect() }) };
+            let built = guarded(|| { let b = Converter::builder().with_bundled_units().map_err(|e| e.to_string())?.with_units_file(layer).map_err(|e| e.to_string())?; let b = if third { b.with_units_file(alias_layer).map_err(|e| e.to_string())? } else { b }; b.finish().map_err(|e| e.to_string()) });
             let conv = match built { Ok(Ok(c)) => c, Ok(Err(e)) => { ctx.oracle_fail(desc, format!("the rebasing layer is refused: {e}"), "c09:rebase-refused".into()); continue; } Err(p) => { ctx.oracle_fail(desc, format!("panic {p}"), panic_signature(&p)); continue; } };
             ctx.eval("", true);
             let us: Vec<Arc<Unit>> = conv.all_units().filter(|u| u.physical_quantity == q).filter_map(|u| conv.find_unit(u.symbol())).filter(|u| std_def(u.symbol()).is_some()).collect();
@@ -759,6 +764,7 @@ fn rebased_layer_cases(ctx: &mut Ctx) {
                     Err(p) => ctx.oracle_fail(format!("{desc}: {v} {} -> {}", a.symbol(), b.symbol()), format!("panic {p}"), panic_signature(&p)),
                 }
             } }
+          }
         }
     }
 }
